@@ -35,9 +35,10 @@ const (
 	SRestart // restart replica A if it is down
 	SSnapshot
 	SLinkTape // install a decision tape on the link A->B
+	SJoin     // the leader proposes joiner A as a new member and the joiner starts with an empty peer list (partition.addNode -> loadRaft(nil))
 )
 
-var stepNames = []string{"propose", "tick", "partition", "heal", "crash", "restart", "snapshot", "link-tape"}
+var stepNames = []string{"propose", "tick", "partition", "heal", "crash", "restart", "snapshot", "link-tape", "join"}
 
 type Step struct {
 	K     int   `json:"k"`
@@ -49,8 +50,12 @@ type Step struct {
 }
 
 type Case struct {
-	Replicas int    `json:"replicas"`
-	Steps    []Step `json:"steps"`
+	Replicas int `json:"replicas"`
+	// Joiners: further replicas that are not founding members; a join step adds one (conf change proposed at the
+	// leader, the joiner starts without peers). Every later restart of any replica passes the member list of that
+	// moment, as the product does (allocator -> partition.loadRaft(partition.nodeIds())).
+	Joiners int    `json:"joiners,omitempty"`
+	Steps   []Step `json:"steps"`
 }
 
 func (c Case) String() string {
@@ -63,19 +68,28 @@ func (c Case) String() string {
 
 func genCase(t *rapid.T) Case {
 	c := Case{Replicas: rapid.SampledFrom([]int{1, 2, 3, 3, 3, 4, 5}).Draw(t, "replicas")}
+	c.Joiners = rapid.SampledFrom([]int{0, 0, 1, 2}).Draw(t, "joiners")
+	if c.Replicas+c.Joiners > 5 {
+		c.Joiners = 5 - c.Replicas
+	}
+	kinds := []int{SPropose, SPropose, SPropose, SPropose, STick, STick, STick, SPartition, SHeal, SCrash, SRestart, SRestart, SSnapshot, SLinkTape}
+	if c.Joiners > 0 {
+		kinds = append(kinds, SJoin, SJoin)
+	}
+	all := c.Replicas + c.Joiners
 	step := rapid.Custom(func(t *rapid.T) Step {
-		k := rapid.SampledFrom([]int{SPropose, SPropose, SPropose, SPropose, STick, STick, STick, SPartition, SHeal, SCrash, SRestart, SRestart, SSnapshot, SLinkTape}).Draw(t, "k")
-		s := Step{K: k, A: rapid.IntRange(0, c.Replicas-1).Draw(t, "a")}
+		k := rapid.SampledFrom(kinds).Draw(t, "k")
+		s := Step{K: k, A: rapid.IntRange(0, all-1).Draw(t, "a")}
 		switch k {
 		case STick:
 			s.N = rapid.SampledFrom([]int{1, 2, 5, 11, 25}).Draw(t, "n")
 		case SPartition:
-			s.N = rapid.IntRange(1, 1<<uint(c.Replicas)-1).Draw(t, "mask")
+			s.N = rapid.IntRange(1, 1<<uint(all)-1).Draw(t, "mask")
 		case SCrash:
 			s.N = rapid.IntRange(1, 6).Draw(t, "kth")
 			s.After = rapid.Bool().Draw(t, "after")
 		case SLinkTape:
-			s.B = rapid.IntRange(0, c.Replicas-1).Draw(t, "b")
+			s.B = rapid.IntRange(0, all-1).Draw(t, "b")
 			s.Tape = rapid.SliceOfN(rapid.SampledFrom([]int{sim.LinkDeliver, sim.LinkDeliver, sim.LinkDropError, sim.LinkDropSilent, sim.LinkDuplicate, sim.LinkDelay}), 1, 6).Draw(t, "tape")
 		}
 		return s
@@ -95,6 +109,8 @@ type replica struct {
 	tr    *raft.RaftTransport
 	up    bool
 	inc   int
+	// joiner: not a founding member; joined: a join step has started it (it is part of the member list from then on)
+	joiner, joined bool
 
 	mu      sync.Mutex
 	applied []string // this incarnation's applied payload sequence (snapshot prefix included)
@@ -157,9 +173,12 @@ func (w *world) start(r *replica, bootstrap bool) {
 		panic(err)
 	}
 	r.tr = raft.NewTransport(r.id, fmt.Sprintf("sim:%d", r.id), conn)
+	// the member list as the product's catalogue would hold it now: founding members plus joined replicas
 	var peers []uint64
 	for _, p := range w.reps {
-		peers = append(peers, p.id)
+		if !p.joiner || p.joined {
+			peers = append(peers, p.id)
+		}
 		if p.id != r.id {
 			r.tr.VerifSetPeerClient(p.id, w.net.Client(r.id, p.id))
 		}
@@ -187,10 +206,21 @@ func (w *world) start(r *replica, bootstrap bool) {
 	rr := r
 	r.mon.OnCrash = func() { w.kill(rr, inc) }
 	var nodeIds []uint64
-	if !bootstrap && before.LastIndex == 0 && before.Term == 0 && before.Commit == 0 {
+	pristine := before.LastIndex == 0 && before.Term == 0 && before.Commit == 0 && before.Vote == 0
+	if !bootstrap && pristine && !r.joiner {
 		bootstrap = true // the crash came before anything was durable: the store is still pristine
 	}
-	if bootstrap {
+	switch {
+	case r.joiner && r.inc == 1:
+		nodeIds = nil // first start of a joiner: partition.addNode -> loadRaft(nil)
+	case r.joiner && pristine && pbt.Open("C05:pristine-joiner-restarted-with-peers"):
+		// known finding: the product would pass the member list here too and the pristine joiner would bootstrap a log
+		// of its own; the harness restarts it the way its first start went
+		nodeIds = nil
+		pbt.CountExcluded("TestRaftGlueSafety", "C05:pristine-joiner-restarted-with-peers")
+	default:
+		// bootstrap of a founding member, and every restart: the product always passes the member list and leaves it
+		// to startRaftNode to tell a pristine store from one that holds state
 		nodeIds = peers
 	}
 	g, err := raft.NewRaftGroup(groupID, nodeIds, r.mon, r.tr)
@@ -233,7 +263,7 @@ func (w *world) start(r *replica, bootstrap bool) {
 	r.group = g
 	r.up = true
 	w.net.SetTarget(r.id, r.tr)
-	if !bootstrap {
+	if !bootstrap && !(r.joiner && r.inc == 1) {
 		// (d) after restart: the node resumes from a term and log no older than what it had made durable
 		st := g.VerifStatus()
 		if st.Term < before.Term {
@@ -291,6 +321,9 @@ func check(c Case, o *pbt.Obs) *pbt.Failure {
 	for i := 0; i < c.Replicas; i++ {
 		w.reps = append(w.reps, &replica{i: i, id: nodeID(i), db: hutil.MemDB()})
 	}
+	for i := 0; i < c.Joiners; i++ {
+		w.reps = append(w.reps, &replica{i: c.Replicas + i, id: nodeID(c.Replicas + i), db: hutil.MemDB(), joiner: true})
+	}
 	defer func() {
 		for _, r := range w.reps {
 			if r.up {
@@ -323,7 +356,9 @@ func check(c Case, o *pbt.Obs) *pbt.Failure {
 		}
 	}
 	for _, r := range w.reps {
-		w.start(r, true)
+		if !r.joiner {
+			w.start(r, true)
+		}
 	}
 	faults, crashes, committedAfterFault := 0, 0, false
 	settle := func() { time.Sleep(250 * time.Microsecond) }
@@ -373,10 +408,29 @@ func check(c Case, o *pbt.Obs) *pbt.Failure {
 			r.mon.Arm(s.N, s.After)
 			crashes++
 		case SRestart:
-			if r.up {
+			if r.up || (r.joiner && !r.joined) {
 				continue
 			}
 			w.start(r, false)
+		case SJoin:
+			if c.Joiners == 0 {
+				continue
+			}
+			j := w.reps[c.Replicas+s.A%c.Joiners]
+			if j.joined {
+				continue
+			}
+			// the leader of the moment proposes the new member (partition.proposeAddNode); the joiner loads its group
+			// without peers when the catalogue change reaches it, whether or not the membership change got through
+			for _, l := range w.reps {
+				if l.up && l.group.VerifStatus().RaftState == etcdRaft.StateLeader {
+					_ = l.group.ProposeJoin(j.id, fmt.Sprintf("sim:%d", j.id))
+					break
+				}
+			}
+			j.joined = true
+			w.start(j, false)
+			o.Label("join-step")
 		case SSnapshot:
 			if r.up {
 				if err, ran := r.group.VerifSnapshotNow(); ran && err != nil && err != sim.ErrCrashed && err != etcdRaft.ErrSnapOutOfDate && err != wal.EmptyConfStateErr {
@@ -411,7 +465,7 @@ func check(c Case, o *pbt.Obs) *pbt.Failure {
 	}
 	time.Sleep(300 * time.Microsecond)
 	for _, r := range w.reps {
-		if !r.up {
+		if !r.up && (!r.joiner || r.joined) {
 			w.start(r, false)
 		}
 	}
@@ -424,6 +478,9 @@ func check(c Case, o *pbt.Obs) *pbt.Failure {
 			return f
 		}
 		for _, r := range w.reps {
+			if r.joiner && !r.joined {
+				continue
+			}
 			if !r.up {
 				w.start(r, false) // a crash that fired late
 			}
@@ -441,6 +498,15 @@ func check(c Case, o *pbt.Obs) *pbt.Failure {
 			}
 		}
 		if leader != nil && round%20 == 0 {
+			// a joined replica whose membership change never got through (no leader at the time, message lost) is
+			// proposed again: the product's allocator does the same on the next membership notification
+			if st := leader.group.VerifStatus(); st.Progress != nil {
+				for _, j := range w.reps {
+					if _, member := st.Progress[j.id]; j.joined && !member {
+						_ = leader.group.ProposeJoin(j.id, fmt.Sprintf("sim:%d", j.id))
+					}
+				}
+			}
 			ctx, cancel := context.WithTimeout(context.Background(), 3*time.Millisecond)
 			if leader.group.Propose(ctx, []byte(probe)) == nil {
 				proposedProbe = true
@@ -454,6 +520,9 @@ func check(c Case, o *pbt.Obs) *pbt.Failure {
 		same := true
 		var ref []string
 		for i, r := range w.reps {
+			if r.joiner && !r.joined {
+				continue
+			}
 			r.mu.Lock()
 			a := append([]string(nil), r.applied...)
 			r.mu.Unlock()
@@ -480,6 +549,9 @@ func check(c Case, o *pbt.Obs) *pbt.Failure {
 	if !converged {
 		var st []string
 		for _, r := range w.reps {
+			if r.group == nil {
+				continue
+			}
 			s := r.group.VerifStatus()
 			r.mu.Lock()
 			st = append(st, fmt.Sprintf("r%d{up=%v term=%d state=%v commit=%d applied=%d}", r.i, r.up, s.Term, s.RaftState, s.Commit, len(r.applied)))
@@ -514,7 +586,7 @@ func check(c Case, o *pbt.Obs) *pbt.Failure {
 func TestRaftGlueSafety(t *testing.T) {
 	pbt.Run(t, pbt.Prop[Case]{
 		ID: "C05", Name: "TestRaftGlueSafety",
-		Rule:    "rapid-generated schedules over 1-5 real RaftGroups (real ready loop, RaftTransport and Badger log stores; in-memory message shims): proposals at any replica, logical ticks through the loop hook, partitions/heals, per-link decision tapes (deliver/drop-with-error/drop-silently/duplicate/delay), crash of a replica at its k-th next durable write before or after performing it, restart over the same store (RestartNode), snapshot-now; invariants checked online: applied payload sequences of all incarnations are prefixes of one canonical sequence (snapshots included), a granted MsgVoteResp / accepted MsgAppResp leaves only after the term+vote / entries it attests are durable in the sender's log store, durable term/commit never go back, vote never changes within a term, committed entries are never overwritten, a restarted replica resumes at a term/vote/commit no older than durable, no log.Fatal without injected crash; finally all replicas are restarted, healed and must converge on equal sequences containing a probe (bounded logical time; non-convergence is counted inconclusive); non-trivial = a fault or crash plan was active and entries were applied afterwards; distinct = distinct case JSON",
+		Rule:    "rapid-generated schedules over 1-5 real RaftGroups (real ready loop, RaftTransport and Badger log stores; in-memory message shims): proposals at any replica, logical ticks through the loop hook, partitions/heals, per-link decision tapes (deliver/drop-with-error/drop-silently/duplicate/delay), crash of a replica at its k-th next durable write before or after performing it, restart over the same store passing the member list of the moment (as the product's allocator does; startRaftNode must tell a pristine store from one that holds state), 0-2 late joiners (membership change proposed at the leader, the joiner starts without peers), snapshot-now; invariants checked online: applied payload sequences of all incarnations are prefixes of one canonical sequence (snapshots included), a granted MsgVoteResp / accepted MsgAppResp leaves only after the term+vote / entries it attests are durable in the sender's log store, durable term/commit never go back, vote never changes within a term, committed entries are never overwritten, a restarted replica resumes at a term/vote/commit no older than durable, no log.Fatal without injected crash; finally all replicas are restarted, healed and must converge on equal sequences containing a probe (bounded logical time; non-convergence is counted inconclusive); non-trivial = a fault or crash plan was active and entries were applied afterwards; distinct = distinct case JSON",
 		Gen:     genCase,
 		Check:   check,
 		Journal: true,
